@@ -166,6 +166,63 @@ end
 def okTop (t : OrE) : Bool :=
   okOr false t && distinctOr t && !hasDupStr (printConds (shapeOr t))
 
+/-! ### the reading of a token string (what the parser may look at) and the flattening of a
+    condition object: the unique token string that denotes it -/
+
+/-- what a token contributes: its type, its text when it is an identifier, its value when a number -/
+structure Key where
+  type : TT
+  text : String
+  val : Nat
+deriving DecidableEq, Repr
+
+def _root_.ASV.Parser.Tok.key (t : Tok) : Key :=
+  ⟨t.type, if t.type = .identifier then t.text else "", if t.type = .int then digitsVal t.text.toList else 0⟩
+
+def kOf (t : TT) : Key := ⟨t, "", 0⟩
+def kId (n : String) : Key := ⟨.identifier, n, 0⟩
+def kInt (v : Nat) : Key := ⟨.int, "", v⟩
+def flatNot (neg : Bool) : List Key := if neg then [kOf .notOp] else []
+def flatIds : List String → List Key
+  | [] => []
+  | [a] => [kId a]
+  | a :: rest => kId a :: kOf .comma :: flatIds rest
+
+mutual
+def flatC : Cond → List Key
+  | .single neg n => flatNot neg ++ [kId n]
+  | .score neg n s =>
+      flatNot neg ++ [kOf .score, kOf .groupOpen, kId n, kOf .comma, kInt s.toNat, kOf .groupClose]
+  | .minimum neg c opts =>
+      flatNot neg ++ [kOf .minimum, kOf .groupOpen, kInt c, kOf .comma, kOf .listOpen] ++ flatIds opts
+        ++ [kOf .listClose, kOf .groupClose]
+  | .cds neg subs => flatNot neg ++ [kOf .cds, kOf .groupOpen] ++ flatJoin .orOp subs ++ [kOf .groupClose]
+  | .group neg subs => flatNot neg ++ [kOf .groupOpen] ++ flatJoin .orOp subs ++ [kOf .groupClose]
+  | .conj subs => flatJoin .andOp subs
+def flatJoin (op : TT) : List Cond → List Key
+  | [] => []
+  | [c] => flatC c
+  | c :: cs => flatC c ++ kOf op :: flatJoin op cs
+end
+
+def _root_.ASV.Rules.Cond.isAtomish : Cond → Bool
+  | .conj _ => false
+  | _ => true
+
+mutual
+/-- the condition objects the documented grammar can denote (`allowCds = false`: inside `cds(...)`) -/
+def shapeOk (allowCds : Bool) : Cond → Bool
+  | .single _ _ => true
+  | .score _ _ _ => true
+  | .minimum _ _ opts => allowCds && !opts.isEmpty
+  | .cds _ subs => allowCds && !subs.isEmpty && shapeOks false subs && !loneIdentifier subs
+  | .group _ subs => !subs.isEmpty && shapeOks allowCds subs
+  | .conj subs => decide (2 ≤ subs.length) && subs.all Cond.isAtomish && shapeOks allowCds subs
+def shapeOks (allowCds : Bool) : List Cond → Bool
+  | [] => true
+  | c :: cs => shapeOk allowCds c && shapeOks allowCds cs
+end
+
 /-! ### aliases as textual (token) substitution -/
 
 /-- replace every alias identifier by its definition, once (definitions are stored expanded) -/
